@@ -24,4 +24,12 @@ registry! {
     h_panic::h_panic_n3_hist,
     h_panic::h_panic_n2_two,
     h_panic::h_panic_twin,
+    h_fin::h_fin_n2,
+    h_fin::h_fin_n3,
+    h_fin::h_fin_n3_stash,
+    #[cfg(feature = "weak-ptrs")]
+    h_fin::h_fin_weak_n2,
+    #[cfg(feature = "weak-ptrs")]
+    h_fin::h_fin_weak_n3,
+    h_fin::h_fin_twin,
 }
